@@ -6,7 +6,7 @@ From PV Require Import proofs.SccWriteFacts proofs.SccWrapFacts proofs.SccWordsF
      proofs.SccLayoutFacts proofs.SccTimingFacts model.SccRoundTrip model.SccDecoder proofs.SccDocFacts proofs.SccComposeFacts
      proofs.SccRoundTripFacts proofs.SccwBridgeFacts.
 From PV Require Import model.SccStash model.SccTime.
-From PV Require proofs.SccRereadNodes proofs.SccRereadLoad proofs.SccRereadTime proofs.SccRereadDoc model.SccRereadDom proofs.SccRereadDomFacts.
+From PV Require proofs.SccRereadNodes proofs.SccRereadLines proofs.SccRereadLoad proofs.SccRereadTime proofs.SccRereadDoc model.SccRereadDom proofs.SccRereadDomFacts.
 Import ListNotations.
 Open Scope Q_scope.
 
@@ -241,7 +241,8 @@ Theorem C17_reader_on_load_line : forall pa ro off lines first st tk ds nodes0 q
     translate_line (SccRereadLoad.ST pa ro off st tk LNone ds nodes0 q tm tc0 fr0) (tc, SccRereadLoad.load_words first lines)
     = SccRereadLoad.ST pa ro off (SccRereadLoad.closed st q t1) tk' LNone ds' (SccRereadLoad.after_eoc nodes) (SccRereadLoad.queued nodes t2) t2 tc
          (Z.of_nat (length (flat_map roww (number_rows first lines))) + 8)
-    /\ SccRereadNodes.plain nodes = true /\ forallb SccRereadNodes.tame_node nodes = true /\ words (SccRereadNodes.ntext nodes) = flat_map words lines.
+    /\ SccRereadNodes.plain nodes = true /\ forallb SccRereadNodes.tame_node nodes = true /\ words (SccRereadNodes.ntext nodes) = flat_map words lines
+    /\ (SccRereadLoad.rows_short lines -> SccRereadLines.short (SccRereadNodes.ntext nodes) = true).
 Proof. exact SccRereadLoad.load_line_run. Qed.
 Print Assumptions C17_reader_on_load_line.
 
@@ -252,42 +253,54 @@ Theorem C17_reader_clock_on_written_timecode : forall f k, (0 <= f < 10800000)%Z
 Proof. exact SccRereadTime.get_time_frames. Qed.
 Print Assumptions C17_reader_clock_on_written_timecode.
 
-(* THE WHOLE DOCUMENT.  Domain: the composed statement's (basic set, <= 15 rows, cues spaced by their transmission time)
-   plus: every cue has a word (a whitespace-only cue is the known finding C17-whitespace-only-cue-not-reread) and ends
-   below 100 h (two-digit hours).  The decoder never raises; the caption store it ends with holds exactly one caption per
-   cue, in order, with the cue's words (split only when longer than 32) and a start within three frames of the cue's.
-   `_partial`: that the two refusals at the end of SCCReader.read (line-length scan, flash check) do not fire on this
-   store is not proved (request 1705 evaluates it on every generated case) - see C17_reread_refusals_partial *)
-Theorem C17_reread_store_partial : forall caps, SccRereadDoc.caps_ok caps ->
+(* the reader's line-length scan (model/SccLen.v length_check) lets through every caption list whose texts have no run of
+   more than 32 characters between newlines *)
+Theorem C17_short_lines_pass_length_scan : forall caps : list SccLen.lcap,
+  Forall (fun c => SccRereadLines.short (snd c) = true) caps -> SccLen.length_check caps = None.
+Proof. exact SccRereadLines.short_texts_pass_length_check. Qed.
+Print Assumptions C17_short_lines_pass_length_scan.
+
+(* THE WHOLE DOCUMENT.  Domain caps_ok: the composed statement's (basic set, <= 15 rows, cues ordered / not overlapping /
+   spaced by their transmission time, start <= end) plus: every cue has a word (a whitespace-only cue is the known
+   finding C17-whitespace-only-cue-not-reread) and ends below 100 h (two-digit hours).
+   C17_reader_store_on_written_document: the decoder never raises; the caption store it ends with holds exactly one
+   caption per cue, in order, with the cue's words and a start within three frames; every stored caption has lines of at
+   most 32 characters (each decoded line is one written row, stripped) and is displayed for at least two frames or not
+   at all (round 4: the closing EDM comes at least two frames after the EOC, by C17_visible_within_3_frames, start <= end
+   and the spacing hypothesis) - so neither the line-length scan nor the flash check of SCCReader.read can refuse it.
+   C17_reread_store / C17_roundtrip_ok: hence the reader model RETURNS captions for the writer model's document, and they
+   satisfy the property's re-read clause - the statement that request 1705 evaluates on every generated case *)
+(* the domain contains every list that satisfies the composed statement's hypotheses (and whose cues have a word and end
+   below 100 h); it is wider: `end <= next start` is not asked for *)
+Theorem C17_reread_domain_contains_composed : forall caps, Forall cap_dom caps -> caps_spaced 0 caps ->
+  Forall SccRereadDoc.has_word caps -> Forall SccRereadDoc.below_100h caps -> SccRereadDoc.caps_ok caps.
+Proof. exact SccRereadDoc.caps_ok_of_composed. Qed.
+Print Assumptions C17_reread_domain_contains_composed.
+Theorem C17_reader_store_on_written_document : forall caps, SccRereadDoc.caps_ok caps ->
   exists stf, reread caps = RRRead (finish_read stf)
               /\ ok_reread (map to_cue caps) (map SccRereadDoc.obs (st_caps stf)) = 0%Z
-              /\ length (st_caps stf) = length caps.
+              /\ length (st_caps stf) = length caps
+              /\ Forall (fun pc => is_flash pc = false /\ SccRereadLines.short (cap_text pc) = true) (st_caps stf).
 Proof. exact SccRereadDoc.reread_stash. Qed.
-Print Assumptions C17_reread_store_partial.
-Theorem C17_reread_conditional_partial : forall caps o, SccRereadDoc.caps_ok caps -> reread_obs caps = Some o ->
-  ok_reread (map to_cue caps) o = 0%Z.
-Proof. exact SccRereadDoc.reread_conditional. Qed.
-Print Assumptions C17_reread_conditional_partial.
-(* in the terms of the boolean the harness evaluates on every case (request 1705) *)
-Theorem C17_roundtrip_ok_when_read_partial : forall caps pcs, SccRereadDoc.caps_ok caps ->
-  reread caps = RRRead (ROk pcs) -> roundtrip_ok caps = true.
-Proof. exact SccRereadDoc.roundtrip_ok_when_read. Qed.
-Print Assumptions C17_roundtrip_ok_when_read_partial.
-Theorem C17_reread_refusals_partial : forall caps, SccRereadDoc.caps_ok caps -> caps <> [] ->
-  (exists pcs, reread caps = RRRead (ROk pcs)) \/ (exists m, reread caps = RRRead (RLen m)) \/ reread caps = RRRead (RErr ETiming).
-Proof. exact SccRereadDoc.reread_refusals. Qed.
-Print Assumptions C17_reread_refusals_partial.
+Print Assumptions C17_reader_store_on_written_document.
+Theorem C17_reread_store : forall caps, SccRereadDoc.caps_ok caps -> caps <> [] ->
+  exists pcs, reread caps = RRRead (ROk pcs) /\ ok_reread (map to_cue caps) (map SccRereadDoc.obs pcs) = 0%Z
+              /\ length pcs = length caps.
+Proof. exact SccRereadDoc.reread_store. Qed.
+Print Assumptions C17_reread_store.
+Theorem C17_roundtrip_ok : forall caps, SccRereadDoc.caps_ok caps -> caps <> [] -> roundtrip_ok caps = true.
+Proof. exact SccRereadDoc.roundtrip_ok_all. Qed.
+Print Assumptions C17_roundtrip_ok.
 
 (* the decidable domain predicate the harness evaluates on every generated case (request 1706) implies the hypothesis of
-   the theorems above; on it the reader model's answer to the writer model's document is captions or one of the two
-   final refusals - never a decoder error, never 'no captions' *)
+   the theorems above; on it the reader model's answer to the writer model's document is: captions (class 0) *)
 Theorem C17_domain_predicate_sound : forall caps, SccRereadDom.caps_ok_b caps = true -> SccRereadDoc.caps_ok caps.
 Proof. exact SccRereadDomFacts.caps_ok_b_sound. Qed.
 Print Assumptions C17_domain_predicate_sound.
-Theorem C17_reread_class_on_domain_partial : forall caps, SccRereadDom.caps_ok_b caps = true -> caps <> [] ->
-  SccRereadDom.reread_class caps = 0%Z \/ SccRereadDom.reread_class caps = 1%Z \/ SccRereadDom.reread_class caps = 2%Z.
+Theorem C17_reread_class_on_domain : forall caps, SccRereadDom.caps_ok_b caps = true -> caps <> [] ->
+  SccRereadDom.reread_class caps = 0%Z.
 Proof. exact SccRereadDomFacts.reread_class_on_domain. Qed.
-Print Assumptions C17_reread_class_on_domain_partial.
+Print Assumptions C17_reread_class_on_domain.
 
 (* ---- non-vacuity ---------------------------------------------------------------------------------------- *)
 Example C17_example_wrap :
@@ -336,6 +349,16 @@ Example C17_example_reread :
   SccRereadDoc.caps_ok caps /\ SccRereadDom.caps_ok_b caps = true /\ (exists o, reread_obs caps = Some o) /\ roundtrip_ok caps = true.
 Proof.
   split; [|split; [vm_compute; reflexivity|split; [eexists; vm_compute; reflexivity|vm_compute; reflexivity]]].
+  split; [repeat constructor|split; [vm_compute; intuition discriminate|split]].
+  - repeat constructor; vm_compute; discriminate.
+  - repeat constructor.
+Qed.
+(* a cue that ends after the next one starts lies inside the domain of the re-read theorems (not inside caps_spaced) *)
+Example C17_example_reread_overlapping_end :
+  let caps := [mkWcap (lit "ab") (10000000 # 1) (12500000 # 1); mkWcap (lit "cd") (12000000 # 1) (13000000 # 1)] in
+  SccRereadDoc.caps_ok caps /\ SccRereadDom.caps_ok_b caps = true /\ roundtrip_ok caps = true.
+Proof.
+  split; [|split; vm_compute; reflexivity].
   split; [repeat constructor|split; [vm_compute; intuition discriminate|split]].
   - repeat constructor; vm_compute; discriminate.
   - repeat constructor.
